@@ -215,6 +215,20 @@ def tailify(stmts: List[ast.stmt], res: Optional[str]) -> Tuple[List[ast.stmt], 
                 out.append(new)
                 return out, rt
             raise NotInlinable("return on part of a branch that also falls through")
+        if isinstance(s, ast.Try) and _has_return(s) and not s.finalbody and not s.orelse:
+            # `try: ...; return X  except E: raise/return` in tail position: the value computed in the try body is the
+            # result; an exception raised while computing it is handled exactly as before
+            body, bt = tailify(s.body, res)
+            hs = []
+            allt = bt
+            for h in s.handlers:
+                hb, ht = tailify(h.body, res)
+                allt = allt and ht
+                hs.append(ast.copy_location(ast.ExceptHandler(h.type, h.name, hb or [ast.copy_location(ast.Pass(), h)]), h))
+            if not allt:
+                raise NotInlinable("try statement that returns on some paths only")
+            out.append(ast.copy_location(ast.Try(body, hs, [], []), s))
+            return out, True
         if _has_return(s):
             raise NotInlinable("return inside a loop / try / with")
         out.append(s)
